@@ -17,6 +17,8 @@
   * `signals_match_changes`   add/remove/update/store-remove signals are sent exactly for the corresponding changes
                               (or a refresh signal covers a wholesale change); `update_is_announced`
   * `never_crashes`           no KeyError/IndexError/ValueError is raised from inside the view
+  * `rank_is_order_embedding`, `view_sorted_by_real_keys`   the map from real keys to naturals as a theorem, and the
+                              sortedness by generated keys for histories given by the flows' data, without hypothesis
   * `real_keys_total_preorder`, `view_sorted_by_generated_keys`   the four `generate` functions as code (`genKey`),
                               Python's `<=` on their values is a total preorder, and the list is sorted by them
   * `sorted_list_is_stable_sort`, `refilter_is_stable_sort_of_store`, `set_order_is_stable_sort_of_view`,
@@ -26,6 +28,7 @@
 -/
 import MitmVerif.Lemmas.C43e
 import MitmVerif.Lemmas.C43f
+import MitmVerif.Lemmas.C43h
 set_option linter.unusedSectionVars false
 set_option linter.unusedSimpArgs false
 set_option linter.unusedVariables false
@@ -435,6 +438,42 @@ theorem view_sorted_by_generated_keys (ops : List Op) (data : Nat → FlowData)
     simp only [Bool.false_eq_true, if_false]
     exact hs'
 
+/-- **an order-preserving map from the real keys to naturals exists**: the rank of a key among the keys occurring in the
+    history (`rankIn K`: how many occurring keys are strictly smaller).  For occurring keys of one kind it preserves and
+    reflects Python's `<=`. -/
+theorem rank_is_order_embedding (K : List SortKey) (a b : SortKey) (hk : a.isNum = b.isNum) (hb : b ∈ K) :
+    rankIn K a ≤ rankIn K b ↔ a.le b = true :=
+  ⟨rankIn_reflects K a b hk hb, rankIn_preserves K a b⟩
+
+/-- **sorted by the generated keys — without a hypothesis about the naturals**: take ANY history whose operations
+    describe the flows by what the key generators read of them (`ROp`: `mutate` / `add` / `update` carry a `FlowData`).
+    Feed the view model the ranks of the generated keys (`toOp (rankIn (keysOf rops))`, which is what the harness does).
+    Then the listed flows whose last change the view has seen are in the order of their GENERATED keys
+    (`genKey slot (live data)`, compared with Python's `<=`), descending when reversed.  `view_sorted_by_generated_keys`
+    needed the order-preservation of the map as a hypothesis; here it is derived. -/
+theorem view_sorted_by_real_keys (rops : List ROp) :
+    let rank := rankIn (keysOf rops)
+    let ops := rops.map (toOp rank)
+    let s := run ops
+    let data := (rrun rank rops).2
+    let cur := (shown s).filter (fun g => decide (g ∉ stale ops))
+    if s.reversed then cur.Pairwise (fun a b => (genKey s.slot (data b)).le (genKey s.slot (data a)) = true)
+    else cur.Pairwise (fun a b => (genKey s.slot (data a)).le (genKey s.slot (data b)) = true) := by
+  intro rank ops s data cur
+  have hsync : Synced rank (keysOf rops) s data := by
+    have := synced_rrun rank (keysOf rops) rops (fun k hk => hk)
+    rw [rrun_fst] at this
+    exact this
+  have h : Good s (stale ops) := good_run ops
+  apply view_sorted_by_generated_keys ops data
+  intro a b ha hb _ _ hab
+  have hsa := hsync a (h.core.viewSub a ha)
+  have hsb := hsync b (h.core.viewSub b hb)
+  have ha' : gen s a = rank (genKey s.slot (data a)) := hsa.1 s.slot
+  have hb' : gen s b = rank (genKey s.slot (data b)) := hsb.1 s.slot
+  rw [ha', hb'] at hab
+  exact rankIn_reflects (keysOf rops) _ _ (by rw [genKey_kind, genKey_kind]) (hsb.2 s.slot) hab
+
 /-! ### the model is not vacuous: the two recorded defect scenarios, now correct -/
 
 private def aU : Attr := ⟨1, 0, 0, 10, false, [false]⟩      -- unmarked, size 10
@@ -455,6 +494,10 @@ example : (run [.setOrder 4, .add 0 aU, .add 1 aM, .focus 0, .mutate 0 aBig, .re
 example : (run [.setOrder 4, .add 0 aU, .add 1 aM, .focus 0, .mutate 0 aBig, .remove 0]).trace.contains (.vrm 0 0) = true := by decide
 example : stale [.add 0 aU, .mutate 0 aBig, .add 1 aM] = [0] := by decide
 example : stale [.add 0 aU, .mutate 0 aBig, .update 0 aBig] = [] := by decide
+/-- a history in terms of the real flow data: two HTTP flows with methods POST and GET, ordered by method -/
+example : shown (run ([ROp.add 0 (.http 0 [80, 79, 83, 84] [] none none) false [], ROp.add 1 (.http 1 [71, 69, 84] [] none none) false [],
+    ROp.setOrder 2].map (toOp (rankIn (keysOf [ROp.add 0 (.http 0 [80, 79, 83, 84] [] none none) false [],
+      ROp.add 1 (.http 1 [71, 69, 84] [] none none) false [], ROp.setOrder 2]))))) = [1, 0] := by decide
 /-- the key generators on flows of every type -/
 example : genKey 2 (.dns 0 7 none none) = .str [79, 80, 67, 79, 68, 69, 40, 55, 41] := by decide
 example : genKey 2 (.stream 0 false [] []) = .str [85, 68, 80] := by decide
